@@ -95,10 +95,25 @@ Proof. exact np_blocklist. Qed.
 Print Assumptions C09_no_panic_blocklist.
 
 (* receipts.Handler.HandleMessage (repaired: children that are not elements are
-   skipped; the receipt is signalled on a channel that has room for it). *)
-Theorem C09_no_panic_receipts : forall r, mem CPanic (receipts_handle r) = false /\ mem CBlocked (receipts_handle r) = false.
+   skipped): no panic; and for every sequence of receipts — duplicates included,
+   while a message awaits its receipt and while none does, whatever the
+   application did in between — it never parks, given that the handler deletes
+   the table entry before it signals the sender (at most one signal per entry
+   on a channel with room for one). *)
+Theorem C09_no_panic_receipts : forall f e r, mem CPanic (receipts_handle f e r) = false.
 Proof. exact np_receipts. Qed.
 Print Assumptions C09_no_panic_receipts.
+
+Theorem C09_no_wedge_receipts : forall f e r,
+  f_rcpt_delete_first f = true -> mem CBlocked (receipts_handle f e r) = false.
+Proof. exact nw_receipts. Qed.
+Print Assumptions C09_no_wedge_receipts.
+
+(* without that order a repeated receipt parks *)
+Theorem C09_no_wedge_receipts_needs_order : forall f,
+  f_rcpt_delete_first f = false -> mem CBlocked (receipts_handle f rcpt_env rcpt_msg) = true.
+Proof. exact receipts_no_delete_parks. Qed.
+Print Assumptions C09_no_wedge_receipts_needs_order.
 
 (* ibb.Handler.HandleIQ (sources owned by C15/C06), for every history of
    Listen / Accept / Listener.Close calls of the application on a session with a
@@ -112,6 +127,23 @@ Theorem C09_no_wedge_ibb_partial : forall f e start,
   (listener_served f e = true -> mem CBlocked (ibb_iq f e start) = false).
 Proof. exact nw_ibb_partial. Qed.
 Print Assumptions C09_no_wedge_ibb_partial.
+
+(* An <open/> for the session a live Expect call is waiting for is delivered to
+   it, with or without anybody in Accept: it never parks (this is what separates
+   it from the known stall of an unexpected <open/>), given that an Expect call
+   that gives up removes a registration only if it is its own; without that, the
+   take-over history (Expect, Expect again for the same session) parks. *)
+Theorem C09_expected_open_delivered : forall f e start,
+  f_keys_agree f = true -> f_expect_owner f = true ->
+  e_match e = true -> expect_live (e_hist e) = true ->
+  mem CPanic (ibb_iq f e start) = false /\ mem CBlocked (ibb_iq f e start) = false.
+Proof. exact ibb_expected_open_delivered. Qed.
+Print Assumptions C09_expected_open_delivered.
+
+Theorem C09_expected_open_needs_owner_check : forall f, f_expect_owner f = false ->
+  mem CBlocked (ibb_iq f takeover_env (TStart (mkname (str "http://jabber.org/protocol/ibb") (str "open")) [])) = true.
+Proof. exact ibb_lost_registration_parks. Qed.
+Print Assumptions C09_expected_open_needs_owner_check.
 
 (* muc.Client.HandlePresence (sources owned by C18), for every history of joins,
    departures and Leave calls: no panic; never parked when the departure
@@ -131,6 +163,21 @@ Print Assumptions C09_listener_table_keys_agree.
 Theorem C09_depart_is_select : f_depart_select gen_facts = true.
 Proof. exact depart_is_select. Qed.
 Print Assumptions C09_depart_is_select.
+
+Theorem C09_expect_cleanup_checks_owner : f_expect_owner gen_facts = true.
+Proof. exact expect_cleanup_checks_owner. Qed.
+Print Assumptions C09_expect_cleanup_checks_owner.
+
+Theorem C09_receipts_delete_first : f_rcpt_delete_first gen_facts = true.
+Proof. exact receipts_delete_first. Qed.
+Print Assumptions C09_receipts_delete_first.
+
+(* every access of the session's map of pending requests (read by the serve
+   loop, written by request helpers in other goroutines) lies inside a lock
+   region of its mutex: an access outside makes the runtime abort the process *)
+Theorem C09_session_maps_accessed_under_lock : session_maps_locked = true.
+Proof. exact session_maps_accessed_under_lock. Qed.
+Print Assumptions C09_session_maps_accessed_under_lock.
 
 (* ---- all components ---- *)
 
@@ -162,12 +209,13 @@ Proof. exact no_wedge_statement_refuted. Qed.
 Print Assumptions C09_no_wedge_refuted.
 
 (* ... and these are the only ways: the history iterator is neither advanced nor
-   released, a listener is registered that nobody accepts from, or (not the case
-   in these sources) the muc departure is a plain send; *)
+   released, an <open/> finds a listener nobody accepts from and no Expect call
+   registered for its session, or (not the case in these sources) the muc
+   departure is a plain send / the receipt handler signals before deleting; *)
 Theorem C09_no_wedge_partial : forall f c e start rs,
   mem CBlocked (run_comp f c e start rs) = true ->
   (c = HHistory /\ e_ready e = false) \/ (c = HIbbIQ /\ listener_served f e = false) \/
-  (c = HMucPres /\ f_depart_select f = false).
+  (c = HMucPres /\ f_depart_select f = false) \/ (c = HReceipts /\ f_rcpt_delete_first f = false).
 Proof. exact no_wedge_partial. Qed.
 Print Assumptions C09_no_wedge_partial.
 
